@@ -100,6 +100,9 @@ func genPair(r *PRNG, tier, prop string, o pairOpts) *Scenario {
 			if r.Chance(1, 6) {
 				e.NoWriteComp = true
 			}
+			if r.Chance(1, 5) {
+				e.ResetHandlers = true
+			}
 		}
 		// read styles first: a JSON reader needs a JSON writer on the other side
 		styleC := r.PickS([]string{"", "", "", "json", "join", "noabandon"})
